@@ -11,3 +11,11 @@ Definition www_true : bytes := Eval compute in (hx "74727565"). (* "true" *)
 Definition p_client_secret : bytes := Eval compute in (hx "636c69656e745f736563726574"). (* "client_secret" *)
 Definition p_dc_client_id : bytes := Eval compute in (hx "6465766963655f636f64655f636c69656e745f6964"). (* "device_code_client_id" *)
 Definition p_dc_client_secret : bytes := Eval compute in (hx "6465766963655f636f64655f636c69656e745f736563726574"). (* "device_code_client_secret" *)
+Definition log_levels : list bytes := Eval compute in [(hx "455843455054494f4e"); (hx "4552524f52"); (hx "5741524e"); (hx "494e464f"); (hx "4445425547"); (hx "5452414345")].
+Definition log_prio_unknown : Z := 6%Z.
+Definition level_trace : bytes := Eval compute in (hx "5452414345"). (* "TRACE" *)
+Definition level_exception : bytes := Eval compute in (hx "455843455054494f4e"). (* "EXCEPTION" *)
+Definition exc_runtime_error : bytes := Eval compute in (hx "52756e74696d654572726f72"). (* "RuntimeError" *)
+Definition wrap_prefix : bytes := Eval compute in (hx "6374783a20"). (* "ctx: " *)
+Definition panic_prefix : bytes := Eval compute in (hx "68616e646c65722070616e69636b65643a20"). (* "handler panicked: " *)
+Definition schema_result_int64 : bytes := Eval compute in (hx "726573756c743a696e743634"). (* "result:int64" *)
